@@ -105,11 +105,14 @@ def check(item, tier):
             res = planner.plan_on(mdp)
         except Exception as e:
             r.count('planner_exceptions')
+            r.count('planner_exceptions:' + type(e).__name__ + (':discount<=9/10' if spec.gamma <= F(9, 10) else ''))
             r.outcome(('exc', type(e).__name__))
             return r
         r.count('transitions')
         if not res.converged:
             r.count('not_converged')
+            if spec.gamma <= F(9, 10):
+                r.count('not_converged:discount<=9/10')
             return r
         present = [s for s in range(spec.n) if sl(s) in set(mdp.state_list)]
         # policy
@@ -145,7 +148,11 @@ def check(item, tier):
             for s in present:
                 got = float(res.state_value[sl(s)])
                 if not abs(got - float(V[s])) <= 1e-6 * max(1, abs(float(V[s]))):
-                    r.violation('state_value', {'s': s, 'got': got, 'want': V[s]}, item, finding=k6)
+                    # K6 explains reported values only if they are themselves a fixed point of the tolerant improvement test: at every
+                    # state the value lies within the available actions' one-step look-aheads (of the reported values) and no action's
+                    # look-ahead beats it by more than the tolerance -- a wrong table or a scaling slip is not explained by K6
+                    r.violation('state_value', {'s': s, 'got': got, 'want': V[s]}, item,
+                                finding=k6 if (k6 and tolerant_fixed_point(res, spec, present, A, sl)) else None)
             if ok:
                 Vpi, _ = refmdp.eval_policy(spec, pi)
                 for s in present:
@@ -172,6 +179,23 @@ def check(item, tier):
         r.sample({'spec': repr(spec_item), 'gamma': spec.gamma, 'iterations': res.iterations,
                   'state_gain': [float(res.state_gain[sl(s)]) for s in present]})
     return r
+
+
+def tolerant_fixed_point(res, spec, present, A, sl):
+    g = float(spec.gamma)
+    vrep = {s: (0.0 if s in A else float(res.state_value[sl(s)])) for s in present}
+    for s in present:
+        if s in A:
+            continue
+        qs = []
+        for a in spec.acts[s]:
+            if any(ns not in vrep for ns in spec.T[s][a]):
+                return False
+            qs.append(sum(float(p) * (float(spec.R[s][a][ns]) + g * vrep[ns]) for ns, p in spec.T[s][a].items()))
+        tol = 2 * (1e-8 + 1e-5 * max(abs(q) for q in qs))
+        if not (min(qs) - tol <= vrep[s] <= max(qs) + tol) or max(qs) - vrep[s] > tol:
+            return False
+    return True
 
 
 def replay(rec):
